@@ -59,6 +59,26 @@ def cases(draw, ctx):
         actors.append((kb, ["fwait %d" % flag, "rdlock %d" % r, "fset %d" % (flag + 1),
                             "rwunlock %d" % r]))
         flag += 2
+    # writer-gated rendezvous: two readers queue up behind a writer; when it unlocks
+    # both must get in together (each waits inside its read section for the other)
+    var = 0
+    for _ in range(draw(st.sampled_from([0, 1, 1]))):
+        r = draw(st.integers(0, nrw - 1))
+        kw = draw(st.sampled_from(["ult", "ext"]))
+        ka = draw(st.sampled_from(["ult", "ext"]))
+        kb = draw(st.sampled_from(["ult", "ext"]))
+        g, ain, bin_ = flag, flag + 1, flag + 2
+        flag += 3
+        actors.append((kw, ["wrlock %d" % r, "fset %d" % g, "awaitvar %d 2" % var] +
+                       ["yield" if kw == "ult" else "work 3"] * draw(st.integers(0, 4)) +
+                       ["rwunlock %d" % r]))
+        actors.append((ka, ["fwait %d" % g, "varadd %d 1" % var] +
+                       ["work %d" % draw(st.integers(1, 6))] * draw(st.integers(0, 1)) +
+                       ["rdlock %d" % r, "fset %d" % ain, "fwait %d" % bin_, "rwunlock %d" % r]))
+        actors.append((kb, ["fwait %d" % g, "varadd %d 1" % var] +
+                       ["work %d" % draw(st.integers(1, 6))] * draw(st.integers(0, 1)) +
+                       ["rdlock %d" % r, "fset %d" % bin_, "fwait %d" % ain, "rwunlock %d" % r]))
+        var += 1
     for _ in range(draw(st.sampled_from([0, 0, 1]))):
         actors.append(("task", ["%s_rej %d" % (draw(st.sampled_from(["rdlock", "wrlock"])),
                                               draw(st.integers(0, nrw - 1)))]))
